@@ -20,7 +20,8 @@ def sh(cmd, cwd=None, env=None, timeout=1500):
 def run_one(args):
     k, stack = args
     rnd = random.Random(1000 + k)
-    twins = sorted(d for d in glob.glob(os.path.join(VERIF, 'twins', '*')) if os.path.isfile(os.path.join(d, 'patch.diff')))
+    skip = {l.strip() for l in open(os.path.join(VERIF, 'twins', 'NO-VERDICT.txt')) if l.strip() and not l.startswith('#')}
+    twins = sorted(d for d in glob.glob(os.path.join(VERIF, 'twins', '*')) if os.path.isfile(os.path.join(d, 'patch.diff')) and os.path.basename(d) not in skip)
     seeds = sorted(d for d in glob.glob(os.path.join(VERIF, 'seeded', '*')) if os.path.isfile(os.path.join(d, 'meta.json')))
     rnd.shuffle(twins)
     rnd.shuffle(seeds)
